@@ -202,12 +202,49 @@ func pool(r *ev.Recorder, n int) []keyEnt {
 	return ks
 }
 
+// emptyRowSig returns, for pool key ki, a message whose HONEST signature has an empty hint row after a non-empty one
+// (about one signature in 200 has; found once per process by signing counter messages with the library).
+var emptyRowCache = map[int][2][]byte{}
+
+func emptyRowSig(ki int, k keyEnt) (msg, sig []byte, row int) {
+	find := func(sig []byte) int {
+		rows, ok := hintRows(sig)
+		if !ok {
+			return -1
+		}
+		seen := false
+		for i, r := range rows {
+			if len(r) > 0 {
+				seen = true
+			} else if seen {
+				return i
+			}
+		}
+		return -1
+	}
+	if e, ok := emptyRowCache[ki]; ok {
+		return e[0], e[1], find(e[1])
+	}
+	for n := 0; n < 4000; n++ {
+		m := []byte(fmt.Sprintf("empty-row-search-%d", n))
+		s, err := k.d.Sign(m)
+		if err != nil {
+			return nil, nil, -1
+		}
+		if r := find(s[:]); r >= 0 {
+			emptyRowCache[ki] = [2][]byte{m, append([]byte{}, s[:]...)}
+			return m, emptyRowCache[ki][1], r
+		}
+	}
+	return nil, nil, -1
+}
+
 var craftKinds = []string{"valid", "valid-ref-signed", "dishonest-z", "dishonest-z", "dishonest-r0", "dishonest-challenge-byte", "dishonest-challenge-byte", "hint-after-255", "hint-swap", "hint-duplicate", "hint-padding", "hint-padding-pair", "hint-count-over", "hint-count-decreasing", "hint-count-into-padding", "hint-count-chain",
-	"other-message", "other-key", "z-set-extreme", "garbage", "garbage-keep-hints", "challenge-last-byte", "challenge-seed-hungry"}
+	"other-message", "other-key", "z-set-extreme", "garbage", "garbage-keep-hints", "challenge-last-byte", "challenge-seed-hungry", "zero-response-honest-hints", "hint-empty-row-count-zeroed"}
 
 func TestCrafted(t *testing.T) {
 	r := ev.New(t, prop, "TestCrafted")
-	r.Rule("rapid draws a key (pool of 4), a message and ONE crafted class: signatures from a DISHONEST reference signer holding the secret key that skips exactly one signing-side check (z-norm: everything the verifier recomputes matches, only the norm check can stop it; r0; hint count) or transmits a challenge differing in one byte from the honest one while using it consistently (only the final challenge comparison can stop it - every byte position is drawn), hint-encoding surgery that preserves the decoded hint set (swap, duplicate, non-zero padding, counts over 75 / decreasing / reaching into the padding), other message / key, a challenge seed whose expansion consumes 97..102 stream bytes, a z coefficient forced to +-(gamma1-beta-1), +-(gamma1-beta), -gamma1+1, gamma1, garbage; oracle Verify_lib == Verify_spec, a-priori reject, Open consistent; non-trivial = passes all verifier-side conditions but one, or differs from a valid signature by one edit; distinct by (class, key, message, position)")
+	r.Rule("rapid draws a key (pool of 4), a message and ONE crafted class: signatures from a DISHONEST reference signer holding the secret key that skips exactly one signing-side check (z-norm: everything the verifier recomputes matches, only the norm check can stop it; r0; hint count) or transmits a challenge differing in one byte from the honest one while using it consistently (only the final challenge comparison can stop it - every byte position is drawn), hint-encoding surgery that preserves the decoded hint set (swap, duplicate, non-zero padding, counts over 75 / decreasing / reaching into the padding / the count byte of an empty row lowered), other message / key, a challenge seed whose expansion consumes 97..102 stream bytes, a zero response / zero t1 under honest hints (hinted coefficients with low part exactly 0), a z coefficient forced to +-(gamma1-beta-1), +-(gamma1-beta), -gamma1+1, gamma1, garbage; oracle Verify_lib == Verify_spec, a-priori reject, Open consistent; non-trivial = passes all verifier-side conditions but one, or differs from a valid signature by one edit; distinct by (class, key, message, position)")
 	ks := pool(r, 4)
 	checks := r.PerShard(r.Pick(3200, 80000))
 	r.Rapid(t, "craft", checks, func(rt *rapid.T) {
@@ -403,6 +440,42 @@ func TestCrafted(t *testing.T) {
 			copy(g[offHint:], s[offHint:])
 			c.Sig = g
 			c.Expect = "agree"
+		case "hint-empty-row-count-zeroed":
+			// an honest signature with an EMPTY hint row after a non-empty one: its count byte repeats the previous count.
+			// Writing 0 (or any smaller value) there gives a second byte string for the same hint set - not canonical
+			m, s, row := emptyRowSig(ki, k)
+			if row < 0 {
+				c.Sig, c.Expect, c.Class = honest(), "accept", "valid"
+				break
+			}
+			o := append([]byte{}, s...)
+			prev := int(o[offCnt+row])
+			if rapid.Bool().Draw(rt, "zero") {
+				o[offCnt+row] = 0
+			} else {
+				o[offCnt+row] = byte(rapid.IntRange(0, prev-1).Draw(rt, "smaller"))
+			}
+			c.Msg, c.Sig = m, o
+			detail = fmt.Sprintf("row %d is empty; its count byte %d replaced by %d", row, prev, o[offCnt+row])
+		case "zero-response-honest-hints":
+			// z = 0 and / or t1 = 0 under the honest hint section: w' is exactly 0 (or full of exact zeros), so hinted
+			// coefficients have low part 0 - the one operand class of the hint rule honest signatures almost never meet
+			o := append([]byte{}, honest()...)
+			how := rapid.IntRange(0, 2).Draw(rt, "how")
+			if how != 1 {
+				for i := offZ; i < offHint; i += 5 {
+					copy(o[i:i+5], []byte{0x00, 0x00, 0x08, 0x00, 0x80})
+				}
+			}
+			if how != 0 {
+				np := append([]byte{}, k.ref.PK...)
+				for i := 32; i < len(np); i++ {
+					np[i] = 0
+				}
+				c.PK = np
+			}
+			c.Sig, c.Expect = o, "agree"
+			detail = fmt.Sprintf("zero response: %v, zero t1: %v", how != 1, how != 0)
 		case "challenge-seed-hungry":
 			// the challenge seed replaced by one whose expansion consumes unusually many stream bytes
 			s := honest()
